@@ -70,6 +70,7 @@ impl Fault {
             }
             Fault::ReplaceRange { what, .. } => match what.as_str() {
                 "literal" => "F17-swap-literal",
+                "join" => "F21-join-lines",
                 _ => "F16-rename-identifier",
             },
             Fault::Reflow { .. } => "F18-reflow",
